@@ -233,8 +233,25 @@ func runC07(c *Ctx) {
 			})
 		}
 		var seqs []string
+		// the round loop lives in the public drivers themselves or in a helper they share: the
+		// obligations attach to whichever ldiff function calls compareResults
+		var drivers []*ssa.Function
+		for _, f := range p.FuncsOfPkg(ldPkg) {
+			if f.Parent() == nil && len(CallSinks(f, CalleeFn(compareResults), false)) > 0 {
+				drivers = append(drivers, f)
+			}
+		}
 		for _, name := range []string{"Diff", "CompareDiff"} {
-			fn := p.Func(ldPkg + ":(*diff)." + name)
+			pub := p.Func(ldPkg + ":(*diff)." + name)
+			reaches := false
+			for _, d := range drivers {
+				if d == pub || len(CallSinks(pub, CalleeFn(d), false)) > 0 {
+					reaches = true
+				}
+			}
+			c.Check(reaches, "C07.3-mismatch-rejected", FuncName(pub)+"|runs the checked round loop", p.Pos(pub.Pos()), "the public driver is, or calls, the function that runs the checked round loop")
+		}
+		for _, fn := range drivers {
 			sinks := CallSinks(fn, CalleeFn(compareResults), false)
 			c.RequireGate("C07.3-mismatch-rejected", fn, lenEq("len(otherRes)==len(toSend)", p.Field(ldPkg+":diffCtx.otherRes")), sinks, "compareResults")
 			c.RequireGate("C07.3-mismatch-rejected", fn, lenEq("len(myRes)==len(toSend)", p.Field(ldPkg+":diffCtx.myRes")), sinks, "compareResults")
@@ -260,7 +277,17 @@ func runC07(c *Ctx) {
 			}
 			seqs = append(seqs, strings.Join(names, ","))
 		}
-		c.Check(len(seqs) == 2 && seqs[0] == seqs[1], "C07.3-mismatch-rejected", "ldiff Diff ~ CompareDiff|same callee sequence", "-", "the two drivers call the same ldiff callees in the same order ("+seqs[0]+")")
+		same := len(seqs) >= 1
+		for _, s := range seqs {
+			if s != seqs[0] {
+				same = false
+			}
+		}
+		first := ""
+		if len(seqs) > 0 {
+			first = seqs[0]
+		}
+		c.Check(same, "C07.3-mismatch-rejected", "ldiff round-loop drivers|same callee sequence", "-", fmt.Sprintf("the %d function(s) running the round loop call the same ldiff callees in the same order (%s)", len(seqs), first))
 	}
 
 	// ---- C07.4 result lists, presence, freshness
@@ -325,6 +352,19 @@ func runC07(c *Ctx) {
 					}
 					if (a.Op == token.EQL || a.Op == token.NEQ) && IsLoadOfField(a.X, idF) && IsLoadOfField(a.Y, idF) {
 						return true, a.Op == token.EQL
+					}
+					// library search by id: idx := slices.IndexFunc(list, func(el) bool { return el.Id == target.Id })
+					if call, ok := a.X.(*ssa.Call); ok && a.Y != nil {
+						if o := CalleeObj(&call.Call); o != nil && o.Pkg() != nil && strings.HasSuffix(o.Pkg().Path(), "slices") && o.Name() == "IndexFunc" && searchesById(call, idF) {
+							if k, isK := IntConst(a.Y); isK {
+								switch {
+								case a.Op == token.LSS && k == 0, a.Op == token.EQL && k == -1:
+									return true, false
+								case a.Op == token.GEQ && k == 0, a.Op == token.NEQ && k == -1, a.Op == token.GTR && k == -1:
+									return true, true
+								}
+							}
+						}
 					}
 					return false, false
 				})
@@ -467,4 +507,35 @@ func lowerBounded(fn *ssa.Function, v ssa.Value, min int64) (bool, string) {
 		}
 	}
 	return true, fmt.Sprintf("clamped: a constant >= %d or the parameter on the >= %d edge of its guard", min, min)
+}
+
+// searchesById: the predicate handed to slices.IndexFunc / ContainsFunc compares
+// Element.Id of its argument with another Element.Id.
+func searchesById(call *ssa.Call, idF *types.Var) bool {
+	if len(call.Call.Args) < 2 {
+		return false
+	}
+	var pred *ssa.Function
+	switch x := call.Call.Args[1].(type) {
+	case *ssa.MakeClosure:
+		pred, _ = x.Fn.(*ssa.Function)
+	case *ssa.Function:
+		pred = x
+	}
+	if pred == nil {
+		return false
+	}
+	ok := false
+	for _, ri := range Returns(pred) {
+		ret := ri.(*ssa.Return)
+		if len(ret.Results) != 1 {
+			return false
+		}
+		bo, isB := ret.Results[0].(*ssa.BinOp)
+		if !isB || bo.Op != token.EQL || !IsLoadOfField(bo.X, idF) || !IsLoadOfField(bo.Y, idF) {
+			return false
+		}
+		ok = true
+	}
+	return ok
 }
